@@ -43,10 +43,30 @@ class Stats:
 STATS = Stats()
 
 
+_NOAPPS = set()      # ids of assertions known to contain no H / I2S application (kept alive by _KEEP)
+_KEEP = []
+
+
 def _walk_apps(assertions):
     hs, is_ = {}, {}
     seen = set()
-    stack = list(assertions)
+    todo = [a for a in assertions if a.get_id() not in _NOAPPS]
+    for a in todo:
+        h1, i1 = _walk_one(a)
+        if not h1 and not i1:
+            _NOAPPS.add(a.get_id())
+            _KEEP.append(a)
+        for t in h1:
+            hs[t.get_id()] = t
+        for t in i1:
+            is_[t.get_id()] = t
+    return list(hs.values()), list(is_.values())
+
+
+def _walk_one(a):
+    hs, is_ = {}, {}
+    seen = set()
+    stack = [a]
     while stack:
         e = stack.pop()
         i = e.get_id()
